@@ -52,8 +52,8 @@ META = {
                   '3 two-trap shapes; 33738 schedules): ALL placements of at most 3 '
                   'occurrences over (trap, position) slots, position = before statement boundary 1..14 or after END, no two '
                   'occurrences of one trap at one position'),
-        'thorough': ('for every (main, handler) combination of the single-trap family (12 mains x 13 handlers, less 6 unpinned pairs) with 2 event kinds each, the 6 two-trap shapes '
-                     'and the 2 three-trap shapes (308 shapes, 1102328 schedules): ALL placements of at most 4 occurrences over (trap, position) slots, position = '
+        'thorough': ('for every (main, handler) combination of the single-trap family (12 mains x 13 handlers, less 7 excluded errout pairs) with 2 event kinds each, the 6 two-trap shapes '
+                     'and the 2 three-trap shapes (306 shapes, 1098446 schedules): ALL placements of at most 4 occurrences over (trap, position) slots, position = '
                      'before statement boundary 1..14 or after END, no two occurrences of one trap at one position'),
     },
     'require_counters': {'any': ['handler_entries_observed', 'occurrences_lost_while_off', 'occurrences_remembered_during_stop',
@@ -224,8 +224,9 @@ def shape_list(tier):
         i = 0
         for m in sorted(MAINS):
             for h in sorted(HANDLERS):
-                if h == 'errout' and m not in ('plain', 'early', 'onoff', 'never', 'err', 'redef_on'):
-                    # no ON in the main part after a handler may have been abandoned by RESUME <line> (not pinned)
+                if h == 'errout' and m not in ('plain', 'early', 'onoff', 'never', 'redef_on'):
+                    # no ON in the main part after a handler may have been abandoned by RESUME <line> (not pinned); and no
+                    # ERROR in the main part: RESUME <line> goes back to a line before it, the program would never end
                     i += 1
                     continue
                 for j in range(2):
@@ -236,7 +237,16 @@ def shape_list(tier):
             shapes.append((multi_shape(n, k), 4))
         shapes.append((multi_shape('3a', ['K', 'T', 'P']), 4))
         shapes.append((multi_shape('3b', ['S', 'K', 'T']), 4))
-    return shapes
+    # by construction every shape ends without events (a shape that loops in the reference semantics is not a test)
+    return [(p, k) for p, k in shapes if terminates(p)]
+
+
+def terminates(prog):
+    try:
+        rt.simulate(prog, {}, rt.Chooser())
+        return True
+    except RuntimeError:
+        return False
 
 
 def slots_of(prog):
@@ -549,7 +559,13 @@ def check_one(rig, res, prog, sched, origin, prelude=0, between='run'):
     case = {'shape': prog['id'], 'program': [l.decode('latin-1') for l in rig.lines],
             'schedule': sorted([b, n] for b, n in sched.items()), 'origin': origin,
             'preceded_by': PRELUDES[prelude], 'then': between}
-    results = rt.all_traces(prog, sched)
+    try:
+        results = rt.all_traces(prog, sched)
+    except RuntimeError as e:
+        # the reference program does not end under this schedule (step bound of the model): nothing to compare
+        res.count('schedules_skipped_model_step_bound')
+        res.inconclusive('model step bound reached: shape %s schedule %r (%s)' % (prog['id'], case['schedule'], e))
+        return None
     try:
         if prelude:
             pout = rig.prelude(prelude, between)
@@ -748,6 +764,8 @@ def run_shard(spec, res):
         nprog = max(1, spec['nrand'] // 20)
         for i in range(nprog):
             prog = gen_program(rng, i)
+            while not terminates(prog):
+                prog = gen_program(rng, i)
             rig.load(prog)
             nb = rt.simulate(prog, {}, rt.Chooser())['boundaries']
             for _ in range(20):
